@@ -254,6 +254,10 @@ func classifyStore(store string, o op, d *divergence) (sub string, fields map[st
 	if d.Panic != "" {
 		if o.K == "Off" {
 			sub = "off-panic"
+			fields["off_args"] = "1"
+			if len(o.H) > 1 {
+				fields["off_args"] = "2+"
+			}
 		} else {
 			sub = "panic"
 			fields["op"] = o.K
@@ -261,12 +265,18 @@ func classifyStore(store string, o op, d *divergence) (sub string, fields map[st
 		return sub, fields, fmt.Sprintf("%s panics: %s", o, trunc(d.Panic, 160))
 	}
 	eff, over, under := effect(d.Lo, d.Hi, d.Got, o.H)
+	if eff == "joint-mismatch" && o.K == "Off" {
+		// every handler is within its own bounds but no state predicts the combination: a handler
+		// registered k times of which neither all nor one-per-naming were removed
+		eff = "duplicate-partially-removed"
+	}
 	fields["effect"] = eff
 	detail := fmt.Sprintf("occurrence of e%d: ran=%v, model allows lo=%v hi=%v (too often: %v, too rarely: %v)", d.E, d.Got, d.Lo, d.Hi, hnames(over), hnames(under))
 	switch {
 	case o.K == "Off" && len(o.H) == 0:
 		sub = "off-none"
 		if len(over) > 0 && len(under) == 0 {
+			sub = "off-none-noop"
 			fields["effect"] = "handlers-still-registered"
 		}
 	case o.K == "Off" && len(o.H) == 1:
@@ -454,36 +464,97 @@ func partA(run *vk.Run, n int) {
 				run.Count("A_"+st.name+"_op_"+k, 1)
 			}
 			d, _ := lockstep(st.mk, ops, false)
-			if i%(n/6+1) == 0 {
+			if i%(n/3+1) == 0 {
 				run.Sample(map[string]any{"part": "A", "store": st.name, "ops": opsStrings(ops), "diverged": d != nil})
 			}
 			if d == nil {
 				continue
 			}
 			diverged++
-			prefix := ops[:d.At+1]
-			g := diagnose(st.mk, st.name, prefix)
-			if g == nil { // cannot happen for a deterministic registry; keep the raw observation
-				sub, fields, what := classifyStore(st.name, prefix[d.At], d)
-				g = &diagnosis{Blamed: d.At, D: d, Sub: sub, Fields: fields, What: what, cls: sub + " " + fmt.Sprint(fields)}
-			}
-			v := vk.Violation{Sub: g.Sub, Fields: g.Fields, What: st.name + ": " + g.What}
-			if lim.first(g.cls, 3) {
-				small := shrink(st.mk, st.name, prefix[:g.Blamed+1], g.cls)
-				w := map[string]any{"store": st.name, "sequence": opsStrings(prefix), "blamed_op_index": g.Blamed, "blamed_op": prefix[g.Blamed].String(),
-					"minimal_program": opsStrings(small), "sequence_no": i}
-				if sg := diagnose(st.mk, st.name, small); sg != nil {
-					w["minimal_program_observation"] = map[string]any{"event": sg.D.E, "ran": sg.D.Got, "model_lo": sg.D.Lo, "model_hi": sg.D.Hi, "panic": sg.D.Panic}
-					v.What = fmt.Sprintf("%s: minimal program %v: %s", st.name, opsStrings(small), sg.What)
-				}
-				v.Witness = w
-			}
-			run.Violation(v)
+			reportStore(run, lim, st.mk, st.name, ops[:d.At+1], d, map[string]any{"sequence_no": i})
 		}
 		run.Count("A_"+st.name+"_sequences", int64(n))
 		run.Count("A_"+st.name+"_sequences_diverged", int64(diverged))
 		run.Logf("part A %s: %d sequences, %d diverged, %v", st.name, n, diverged, time.Since(start).Round(time.Millisecond))
 	}
+}
+
+// report a diverging store-level program (shared by the random and the exhaustive pass).
+func reportStore(run *vk.Run, lim *classLimiter, mk factory, store string, prefix []op, d *divergence, extra map[string]any) {
+	g := diagnose(mk, store, prefix)
+	if g == nil { // cannot happen for a deterministic registry; keep the raw observation
+		sub, fields, what := classifyStore(store, prefix[d.At], d)
+		g = &diagnosis{Blamed: d.At, D: d, Sub: sub, Fields: fields, What: what, cls: sub + " " + fmt.Sprint(fields)}
+	}
+	v := vk.Violation{Sub: g.Sub, Fields: g.Fields, What: store + ": " + g.What}
+	if lim.first(g.cls, 3) {
+		small := shrink(mk, store, prefix[:g.Blamed+1], g.cls)
+		w := map[string]any{"store": store, "sequence": opsStrings(prefix), "blamed_op_index": g.Blamed, "blamed_op": prefix[g.Blamed].String(),
+			"minimal_program": opsStrings(small)}
+		for k, x := range extra {
+			w[k] = x
+		}
+		if sg := diagnose(mk, store, small); sg != nil {
+			w["minimal_program_observation"] = map[string]any{"event": sg.D.E, "ran": sg.D.Got, "model_lo": sg.D.Lo, "model_hi": sg.D.Hi, "panic": sg.D.Panic}
+			v.What = fmt.Sprintf("%s: minimal program %v: %s", store, opsStrings(small), sg.What)
+		}
+		if store == "eventHandlerStore" && g.Sub == "off-none-noop" {
+			v.What += " [Off is called through the same conversion as the public OffEvent methods: an empty, non-nil slice]"
+		}
+		v.Witness = w
+	}
+	run.Violation(v)
+}
+
+// partAExhaustive: EVERY program of up to maxLen operations over one event and three
+// handlers (On h, Once h, Off(h), Off(h,h'), Off(), Fire), each followed by a probing
+// occurrence, on both registries.
+func partAExhaustive(run *vk.Run, maxLen int) {
+	var alphabet []op
+	for h := 0; h < 3; h++ {
+		alphabet = append(alphabet, op{K: "On", H: []int{h}}, op{K: "Once", H: []int{h}}, op{K: "Off", H: []int{h}})
+		for h2 := 0; h2 < 3; h2++ {
+			alphabet = append(alphabet, op{K: "Off", H: []int{h, h2}})
+		}
+	}
+	alphabet = append(alphabet, op{K: "Off"}, op{K: "Fire"})
+	lim := &classLimiter{}
+	for _, st := range []struct {
+		mk   factory
+		name string
+	}{{newEvTarget, "eventHandlerStore"}, {newLcTarget, "handlerStore"}} {
+		start := time.Now()
+		total, diverged := 0, 0
+		prog := make([]op, 0, maxLen)
+		var rec func()
+		rec = func() {
+			if len(prog) > 0 {
+				// a program whose proper prefix already diverges adds nothing: it is cut there
+				total++
+				if d, _ := lockstep(st.mk, prog, true); d != nil {
+					diverged++
+					reportStore(run, lim, st.mk, st.name, append([]op(nil), prog[:d.At+1]...), d, map[string]any{"pass": "exhaustive"})
+					return
+				}
+			}
+			if len(prog) == maxLen {
+				return
+			}
+			for _, o := range alphabet {
+				prog = append(prog, o)
+				rec()
+				prog = prog[:len(prog)-1]
+			}
+		}
+		rec()
+		run.Eval(total)
+		run.Count("A_exhaustive_"+st.name+"_programs", int64(total))
+		run.Count("A_exhaustive_"+st.name+"_programs_diverged", int64(diverged))
+		run.Distinct(fmt.Sprintf("A exhaustive %s: all programs of length<=%d over %d operations", st.name, maxLen, len(alphabet)))
+		run.Logf("part A exhaustive %s: %d programs (length <= %d, %d operations), %d diverged (extensions of a diverging program are not enumerated), %v",
+			st.name, total, maxLen, len(alphabet), diverged, time.Since(start).Round(time.Millisecond))
+	}
+	run.Note("exhaustive_subspace", fmt.Sprintf("part A: every program of length <= %d over {On,Once,Off(h),Off(h,h'),Off(),Fire} x 3 handlers x 1 event, each followed by a probing occurrence, on both registries (programs extending an already diverging program are cut)", maxLen))
 }
 
 // selfCheck: the harness' own assumptions (distinct code pointers, model sanity).
@@ -518,6 +589,7 @@ func main() {
 
 	if run.SubMode == "race" {
 		partA(run, run.Pick(1500, 15000))
+		partAExhaustive(run, 3)
 		partC(run)
 		run.Finish()
 	}
@@ -530,6 +602,7 @@ func main() {
 	}
 	if strings.Contains(parts, "A") {
 		partA(run, run.Pick(20000, 300000))
+		partAExhaustive(run, run.Pick(4, 5))
 	}
 	if strings.Contains(parts, "B") {
 		partB(run)
